@@ -113,7 +113,8 @@ CLAIMS['C01'] = {
              'disjoint, aligned and marked allocated (upper-level panics are tolerated in this statement; they are C03/C09).' + PART +
              'callers that free only a part of a block under interleavings (K1 lives there) are outside the all-interleavings theorems (held blocks are '
              'also proved to lie inside the managed range, and drain may be interleaved); explored by scheduler-controlled runs of the real threads (preemption-bounded DFS '
-             '+ random schedules) whose event traces are replayed on the Lean interleaving semantics.'),
+             '+ random schedules) whose event traces are replayed on the Lean interleaving semantics.'
+             ' Theorem single_row_updates_match_source: the mask and the update closure of Bitfield::toggle for orders 0..2 (the step that claims/releases the bits of a block inside one row, e.g. for a targeted allocation) and the mask test of Bitfield::is_zero are regenerated from core/src/bitfield.rs on every run by the translator (Gen/Toggle.lean) and proved equal to the model\'s.'),
     'note': TB + ' Upper-level theorems hold for configurations satisfying CfgOk (class ids < 8, ordered policy, tree size < 2^19: every configuration of the repository; derived from elementary checks by CfgOk.of_checks); they depend on the C23 theorem (bv_decide axioms) through the lower search.',
     'technique': 'Lean 4 refinement proof (all sequential histories) + rely/guarantee ownership invariants over the single-access interleaving semantics (bitfields and the whole lower allocator, all schedules, any number of threads) + trace co-simulation of real threads with an ownership oracle',
 }
@@ -126,7 +127,8 @@ CLAIMS['C02'] = {
              'blocks that were entirely free, the target if given, allocates exactly them, and every failure is Memory with the allocation state '
              'unchanged; drains and tree changes never change the allocation state; new_then_history: free-all / allocate-all construction (every frame '
              'count, arbitrary buffer contents) establishes the invariant, so this covers every call of every history of a constructed allocator. '
-             'For Init::Recover/None the invariant of the handed-over state is an assumption (C05/C07).'),
+             'For Init::Recover/None the invariant of the handed-over state is an assumption (C05/C07).'
+             ' Theorem single_row_updates_match_source: the mask and the update closure of Bitfield::toggle for orders 0..2 (the step that claims/releases the bits of a block inside one row, e.g. for a targeted allocation) and the mask test of Bitfield::is_zero are regenerated from core/src/bitfield.rs on every run by the translator (Gen/Toggle.lean) and proved equal to the model\'s.'),
     'note': TB + ' Upper-level theorems hold for configurations satisfying CfgOk (class ids < 8, ordered policy, tree size < 2^19: every configuration of the repository; derived from elementary checks by CfgOk.of_checks); they depend on the C23 theorem (bv_decide axioms) through the lower search.',
     'technique': 'Lean 4 refinement proof of the whole sequential allocator (Hoare-style program logic over the model, upper invariant with ghost state, induction over call histories) + byte-level sequential differential with shadow ownership model',
 }
